@@ -2,10 +2,13 @@ package ipfshttp
 
 import (
 	"context"
+	"time"
 	"net/http"
 	"net/http/httptest"
 	"strings"
 )
+
+const vrfPinTimeout = 5 * time.Second
 
 // natively the daemon model sits behind a real HTTP server
 func vrfNewConnector(d *vrfDaemon) (*Connector, func()) {
